@@ -378,6 +378,16 @@ struct World
     std::size_t const before_i = i;
     bool const returned = call(n, [&] { res = Grammars<Ch>::run(g, skipper, *stream); });
     SIM_CHECK(returned, "undocumented-exception", "phrase_parse let the parse exception escape");
+    if (sim::fault::fired(sim::fault::alloc) && res.compare(0, 6, "FATAL:") == 0)
+    {
+      // phrase_parse is documented to catch exceptions and to return them as a (fatal) error: an
+      // injected allocation failure reported that way is as good as a bad_alloc; where the stream
+      // stands afterwards is not known, the history ends here
+      dead = true;
+      ctx.probe("allocation_failure_reported_as_fatal_error");
+      ctx.ev(n + " g=" + std::to_string(g) + " -> fatal error after an allocation failure");
+      return;
+    }
     bool const seek_fault = sb && sb->seek_failures() != seek_before;
     if (fault_now())
     {
@@ -388,7 +398,7 @@ struct World
       {
         std::string tr_res;
         std::size_t tr_index = 0;
-        std::size_t const cut = sb->fault_pos();
+        std::size_t const cut = sb ? sb->fault_pos() : before_i; // (a file buffer can only fail at its first refill)
         reference(text.substr(0, cut), before_i, tr_res, tr_index);
         SIM_CHECK(res == tr_res, "data-after-read-error", "grammar " + std::to_string(g) + " succeeded with " + res + " after a read error at offset " + std::to_string(cut) + "; the text before the error yields " + tr_res);
         ctx.probe("success_despite_read_error");
@@ -493,11 +503,16 @@ struct World
           }
         }
         byte_off.push_back(bytes);
+        out.flush();
+        if (!out.good())
+          sim::violate("harness", "cannot write the scratch file " + path);
       }
       auto f = std::make_unique<std::basic_ifstream<Ch>>();
       static std::locale const utf8("C.utf8");
       f->imbue(utf8);
       f->open(path, std::ios::binary);
+      if (!f->is_open())
+        sim::violate("harness", "cannot open the scratch file " + path);
       is = std::move(f);
       ctx.probe("backend_wide_utf8_filebuf");
     }
@@ -508,8 +523,16 @@ struct World
         std::ofstream out(path, std::ios::binary | std::ios::trunc);
         for (Ch c : text)
           out.put(static_cast<char>(c));
+        out.flush();
+        if (!out.good())
+          sim::violate("harness", "cannot write the scratch file " + path);
       }
-      is = std::make_unique<std::basic_ifstream<Ch>>(path, std::ios::binary);
+      {
+        auto f = std::make_unique<std::basic_ifstream<Ch>>(path, std::ios::binary);
+        if (!f->is_open())
+          sim::violate("harness", "cannot open the scratch file " + path);
+        is = std::move(f);
+      }
       ctx.probe("backend_filebuf");
     }
     stream = std::make_unique<stream_t>(fcppt::reference_to_base<std::basic_istream<Ch>>(fcppt::make_ref(*is)));
